@@ -70,6 +70,27 @@ namespace nmtools::array
             auto numel   = index::product(sizes_);
             // since size may be packed, the proper way to read dim is using len instead of sizes..+1
             auto new_dim = len(sizes_);
+            // validate against bounded capacity first, a refused resize must leave the array unchanged
+            if constexpr (meta::is_resizable_v<shape_type>) {
+                [[maybe_unused]] constexpr auto max_dim = meta::bounded_size_v<shape_type>;
+                if constexpr (meta::is_num_v<decltype(max_dim)>) {
+                    if ((size_t)new_dim > (size_t)max_dim) {
+                        return false;
+                    }
+                }
+            } else if ((size_t)len(shape_) != (size_t)new_dim) {
+                return false;
+            }
+            if constexpr (meta::is_resizable_v<buffer_type>) {
+                [[maybe_unused]] constexpr auto max_numel = meta::bounded_size_v<buffer_type>;
+                if constexpr (meta::is_num_v<decltype(max_numel)>) {
+                    if ((size_t)numel > (size_t)max_numel) {
+                        return false;
+                    }
+                }
+            } else if ((size_t)len(data_) != (size_t)numel) {
+                return false;
+            }
             if constexpr (meta::is_resizable_v<shape_type>) {
                 shape_.resize(new_dim);
             }
